@@ -139,26 +139,52 @@ GHOST_IMPL["SUMDEC"] = _sumdec
 GHOST_IMPL["SKEWDEC"] = _skewdec
 
 
-@contract("Perm.is_sum_decomposable", params={"self": "Perm"}, returns="bool", props=("C10", "C19"), assumed=True)
+def _inv_of(c, p, v):
+    if c.mode == "run":
+        t = tuple(p)
+        return t.index(v) if v in t else -10 ** 9
+    return p.meta["ginv"](v)
+
+
+def _prefix_exactly(c, p, i, lo):
+    """the first i entries of the permutation p are exactly the values lo .. lo+i-1: every one of them
+    lies in that range, and every value of the range sits in the prefix (its position is < i)"""
+    return c.and_(c.forall(0, i, lambda j: c.and_(p[j] >= lo, p[j] < lo + i), pattern=(lambda j: p[j]) if c.mode == "sym" else None),
+                  c.forall(lo, lo + i, lambda v: _inv_of(c, p, v) < i, pattern=(lambda v: _inv_of(c, p, v)) if c.mode == "sym" else None))
+
+
+@contract("Perm.is_sum_decomposable", params={"self": "Perm"}, returns="bool", props=("C10", "C19"))
 class SumDecomposable:
-    # ASSUMED (the body compares  set(range(i)) == set(islice(self, i)) : an equivalence between two
-    # existential membership formulas under a universal quantifier, which neither solver decides
-    # reliably; the bounded layer C10 and D.runtime decide it).  SUMDEC(p) is the truth value of: some
-    # proper non-empty prefix consists of exactly the smallest values.
+    # some proper non-empty prefix consists of exactly the smallest values
     def requires(c, self):
         return c.is_perm(self)
 
     def ensures(c, self, result):
+        return c.iff(result, c.exists(1, c.len(self), lambda i: _prefix_exactly(c, self, i, 0)))
+
+    # SUMDEC(p) is by definition the truth value of that condition
+    def derived(c, self, result):
         return c.iff(result, c.ghost("SUMDEC", self) == 1)
 
+    derived_rule = "GHOST-DEFINITION SUMDEC"
+    modifies = ()
 
-@contract("Perm.is_skew_decomposable", params={"self": "Perm"}, returns="bool", props=("C10", "C19"), assumed=True)
+
+@contract("Perm.is_skew_decomposable", params={"self": "Perm"}, returns="bool", props=("C10", "C19"))
 class SkewDecomposable:
+    # some proper non-empty prefix consists of exactly the largest values
     def requires(c, self):
         return c.is_perm(self)
 
     def ensures(c, self, result):
+        n = c.len(self)
+        return c.iff(result, c.exists(1, n, lambda i: _prefix_exactly(c, self, i, n - i)))
+
+    def derived(c, self, result):
         return c.iff(result, c.ghost("SKEWDEC", self) == 1)
+
+    derived_rule = "GHOST-DEFINITION SKEWDEC"
+    modifies = ()
 
 
 # ------------------------------------------------------------------ C12: sortedness test
